@@ -230,6 +230,12 @@ def run_wr(ctx, p):
             elif k not in kw:
                 kw[k] = getattr(w, k)          # what the wrapper fixes (class attribute), e.g. Sedov eblast, Kidder b
         g = ctx.make(G, **kw)
+    # the same request to both, in the order drawn (ascending), from the outside inwards, or shuffled
+    how = "descending" if e["cost"] >= 1 else ["as drawn", "descending", "shuffled"][p["seed"] % 3]      # costly classes are run once
+    arr = np.asarray(pts, float)
+    if how != "as drawn" and e["layout"] != "comp2" and len(arr) >= 2:
+        idx = np.arange(len(arr))[::-1] if how == "descending" else rng.permutation(len(arr))
+        pts = arr[idx]
     A, B = ctx.call(w, pts, t), ctx.call(g, pts, t)
     names = [n for n in A.dtype.names if n in B.dtype.names and A[n].dtype.kind == "f"]
     ctx.observe("route.wrapper", W.__name__ + "~" + G.__name__, A.dtype.names == B.dtype.names, branch="same fields",
